@@ -304,6 +304,10 @@ func ruleC20Helper(e *Env, h helperSpec) {
 						var stored []ssa.Value
 						for _, r := range *al.Referrers() {
 							if st, ok := r.(*ssa.Store); ok && st.Addr == ssa.Value(al) {
+								// `return data, err` with named results copies each cell onto itself: not a new value
+								if self, ok := st.Val.(*ssa.UnOp); ok && self.Op == token.MUL && self.X == ssa.Value(al) {
+									continue
+								}
 								stored = append(stored, st.Val)
 							}
 						}
